@@ -8,6 +8,7 @@ def stepLine (_ : Unit) (line : String) : Unit × List String :=
   match words line with
   | "park" :: _ => ((), ["ok parked-writes=0"])
   | ["bulk", _] => ((), ["ok writes-inside-statement=0"])
+  | ["idle", _] => ((), ["ok"])
   | ["storm"] => ((), ["done"])
   | ["races"] => ((), ["races 0"])
   | _ => ((), [])
